@@ -1,2 +1,3 @@
 //! Independent reference models. Nothing in here calls the function it is the oracle for.
 pub mod hex;
+pub mod table;
